@@ -39,6 +39,19 @@ pub fn guard<R>(f: impl FnOnce() -> R) -> Option<R> {
     catch_unwind(AssertUnwindSafe(f)).ok()
 }
 
+/// Like `guard`, but a panic is told apart by its message: `Err(true)` when it reports a failed allocation
+/// (`LassoErrorKind::FailedAllocation`, the documented panic of the infallible constructors), `Err(false)` otherwise.
+pub fn guard_ctor<R>(f: impl FnOnce() -> R) -> Result<R, bool> {
+    catch_unwind(AssertUnwindSafe(f)).map_err(|p| {
+        let msg = p
+            .downcast_ref::<String>()
+            .map(String::as_str)
+            .or_else(|| p.downcast_ref::<&'static str>().copied())
+            .unwrap_or("");
+        msg.contains("FailedAllocation")
+    })
+}
+
 #[derive(Clone, Copy, PartialEq, Eq, Debug)]
 pub enum Route {
     Inh,
@@ -959,7 +972,7 @@ impl<K: KeyT> World<K> {
                 };
                 let hasher = VHasher::seeded(seed);
                 let obj = if code == "NR" {
-                    guard(|| {
+                    guard_ctor(|| {
                         Obj::Rodeo(Box::new(RodeoT::<K>::with_capacity_memory_limits_and_hasher(
                             Capacity::new(scap, cap),
                             MemoryLimits::new(lim),
@@ -967,7 +980,7 @@ impl<K: KeyT> World<K> {
                         )))
                     })
                 } else {
-                    guard(|| {
+                    guard_ctor(|| {
                         Obj::Threaded(Box::new(
                             ThreadedT::<K>::with_capacity_memory_limits_and_hasher(
                                 Capacity::new(scap, cap),
@@ -978,11 +991,12 @@ impl<K: KeyT> World<K> {
                     })
                 };
                 match obj {
-                    Some(obj) => {
+                    Ok(obj) => {
                         let slot = self.new_slot(obj, false);
                         (format!("NEW{slot}"), Ev::Created { slot })
                     }
-                    None => ("P".to_string(), Ev::Nothing),
+                    Err(true) => ("P:alloc".to_string(), Ev::Nothing),
+                    Err(false) => ("P".to_string(), Ev::Nothing),
                 }
             }
 
